@@ -353,6 +353,14 @@ impl<'a> El<'a> {
         let x = pick(i[1], &live);
         let xd = self.dims(x);
         let same: Vec<usize> = self.operands().into_iter().filter(|&h| self.dims(h) == xd).collect();
+        if i[4] % 6 >= 4 {
+            // broadcasting custom operations: any broadcast-compatible partner
+            let cands: Vec<usize> = self.operands().into_iter().filter(|&h| broadcast_dims(&xd, &self.dims(h)).map_or(false, |d| numel(&d) <= self.cfg.max_elems)).collect();
+            let y = pick(i[2], &cands);
+            let op = if i[4] % 6 == 4 { OpKind::CBAdd } else { OpKind::CBMul };
+            let args = if i[5] & 1 == 1 { vec![y, x] } else { vec![x, y] };
+            return self.apply(op, args);
+        }
         match i[4] % 4 {
             0 => self.apply(OpKind::CAdd, vec![x, pick(i[2], &same)]),
             1 => self.apply(OpKind::CMul, vec![x, pick(i[2], &same)]),
